@@ -187,6 +187,10 @@ func canonErr(err error) string {
 				return pair(2, c)
 			}
 		}
+		// an endpoint string gRPC cannot even dial (no status code in the text): a failed connection like any other
+		if strings.Contains(s, "invalid target address") || strings.Contains(s, "failed to exit idle mode") || strings.Contains(s, "name resolver") {
+			return pair(2, 14)
+		}
 		return pair(2, 99)
 	}
 	return pair(9, 0)
@@ -205,10 +209,21 @@ type env struct {
 	ctxTO    time.Duration // deadline of the context handed to Sign (0 = one minute, as cmd/gensign)
 }
 
+// oddNames: endpoint strings behind which no CA answers - an IPv6 literal without brackets (what "%s:%d" makes of it
+// cannot be dialled), a URL, a name with a blank, an unresolvable name.  Endpoint ids len(ips)+1 ...
+var oddNames = []string{"2001:db8::10", "https://ca.example.com", "ca example", "ca.invalid"}
+
+func epName(ep int) string {
+	if ep <= len(ips) {
+		return ips[ep-1]
+	}
+	return oddNames[ep-len(ips)-1]
+}
+
 func (e *env) newSigner(eps []int, retries uint) (*crypki.Signer, error) {
 	names := make([]string, len(eps))
 	for i, ep := range eps {
-		names[i] = ips[ep-1]
+		names[i] = epName(ep)
 	}
 	return crypki.NewSigner(crypki.SignerConfig{
 		TLSClientKeyFile: e.keyFile, TLSClientCertFile: e.certFile, TLSCACertFiles: []string{e.caFile},
@@ -316,7 +331,7 @@ func (e *env) signCall(class string, signer *crypki.Signer, eps []int, behs map[
 	c := e.c
 	e.behs = map[string]beh{}
 	for ep, b := range behs {
-		e.behs[ips[ep-1]] = b
+		e.behs[epName(ep)] = b
 	}
 	e.farm.Take()
 	sent := gproto.Clone(req).(*proto.SSHCertificateSigningRequest)
@@ -377,7 +392,7 @@ func (e *env) signCall(class string, signer *crypki.Signer, eps []int, behs map[
 	for _, ep := range eps {
 		epItems = append(epItems, core.GN(uint64(ep)))
 	}
-	for ep := 1; ep <= len(ips); ep++ {
+	for ep := 1; ep <= len(ips)+len(oddNames); ep++ {
 		if b, ok := behs[ep]; ok {
 			behItems = append(behItems, core.GPair(core.GN(uint64(ep)), b.gallina()))
 			behHuman[fmt.Sprint(ep)] = b.human()
@@ -627,6 +642,13 @@ func run(c *core.Ctx) {
 	e.runSign("deadline-tight-slow-then-ok", []int{1, 2}, map[int]beh{1: {kind: "slow"}, 2: genReply(r, e.keys, 2)}, 1)
 	e.runSign("deadline-tight-slow-then-ok", []int{4, 5, 2}, map[int]beh{4: {kind: "slow"}, 5: down, 2: genReply(r, e.keys, 1)}, 1)
 	e.ctxTO = 0
+	// endpoint strings that cannot be dialled at all: failed endpoints like any other
+	for i := range oddNames {
+		odd := len(ips) + 1 + i
+		e.runSign("undialable-endpoint-then-ok", []int{odd, 4}, map[int]beh{odd: down, 4: genReply(r, e.keys, 1)}, 1)
+		e.runSign("undialable-endpoint-alone", []int{odd}, map[int]beh{odd: down}, 1)
+		e.runSign("failing-then-undialable-then-ok", []int{2, odd, 3}, map[int]beh{2: {kind: "status", code: codes.Internal}, odd: down, 3: genReply(r, e.keys, 2)}, 1)
+	}
 	e.runSign("down-then-ok", []int{5, 4}, map[int]beh{5: down, 4: genReply(r, e.keys, 1)}, 1)
 	e.runSign("all-down", []int{5, 5}, map[int]beh{5: down}, 1)
 	// ---- (ii') a context that is already done when Sign is entered (cancelled, or past its deadline): no endpoint can
